@@ -503,6 +503,50 @@ def run_extreme_tauleap(case):
     return {"nsamples": out.nsamples()}
 
 
+def run_script_reuse(case):
+    """One RDScript object handed to several engines in turn: no engine may leave anything behind in the caller's script
+    (its own working units, a drawn seed, ...), so every use returns what a pristine copy of the script returns."""
+    use_repo()
+    engines.install()
+    import json
+    import strengths as st
+    from strengths.rdscript import rdscript_to_dict
+    sd, idx = case["seed"], case["idx"]
+    r = gen.rng_for(sd, "C10reuse", idx)
+    desc = gen.rand_system(r, {"explicit_state": 1.0, "integer_state": True, "state_counts": (1, 30),
+                               "net": {"nspecies": (1, 2), "nreactions": (0, 2), "max_order": 2},
+                               "grid": {"dims": (1, 2), "max_cells": 4}, "graph": {"nodes": (1, 3)}})
+    system = gen.render_system(desc, gen.Rendering(r))
+    usys = gen.mild_sys(r)
+    _, mag = ref.rate_law(desc, gen.state_of(desc), None)
+    dt = 0.02 / max([m / (abs(s_) + 1.0) for m, s_ in zip(mag, gen.state_of(desc))] + [1e-3])
+    script = simhelp.make_script(system, r, dt_si=dt, t_sample_si=[0.0, 3 * dt, 6 * dt], policy="on_t_sample", usys=usys,
+                                 isp="auto", seed=r.randrange(2 ** 31))
+    pristine = script.copy()
+    snap = json.dumps(rdscript_to_dict(script), sort_keys=True, default=str)
+    bad, counts = [], {}
+    refs = {}
+    for kind_ in engines.KINDS:
+        o = st.simulate_script(pristine.copy(), engines.get(kind_))
+        refs[kind_] = (np.array(o.t.value).tobytes(), np.array(o.data.value).tobytes(), si.sys_of(o.data.units.sys))
+    uses = [r.choice(engines.KINDS) for _ in range(r.randint(2, 4))]
+    for n_, kind_ in enumerate(uses):
+        o = st.simulate_script(script, engines.get(kind_))
+        counts["script_reuse_checks"] = counts.get("script_reuse_checks", 0) + 1
+        got = (np.array(o.t.value).tobytes(), np.array(o.data.value).tobytes(), si.sys_of(o.data.units.sys))
+        if json.dumps(rdscript_to_dict(script), sort_keys=True, default=str) != snap:
+            bad.append({"what": "an engine modified the script object it was handed", "uses": uses[:n_ + 1], "script_units": usys,
+                        "units_now": si.sys_of(script.units_system), "case": {"seed": sd, "idx": idx}})
+            break
+        if got != refs[kind_]:
+            bad.append({"what": "a script object used before returns something else than a pristine copy of it", "uses": uses[:n_ + 1],
+                        "script_units": usys, "output_units": got[2], "expected_output_units": refs[kind_][2],
+                        "case": {"seed": sd, "idx": idx}})
+            break
+    return {"bad": bad[:2], "counts": counts, "key": chash([desc, uses, usys]), "nontrivial": len(set(uses)) >= 2,
+            "sample": {"uses": uses, "script_units": usys}}
+
+
 def run_fixed_step_count(case):
     use_repo()
     engines.install()
@@ -741,6 +785,9 @@ def main():
             run.count("fixed_step_count_checks", r_["value"]["n"])
             for b in r_["value"]["bad"]:
                 run.violation(b["what"][:60], b, mech={"what": "fixed-step-count"})
+        # ---------------- (F) one script object handed to several engines ----------------
+        from vf.sandbox import run_extra as _run_extra
+        _run_extra(run, "vf.checks.c10:run_script_reuse", [{"seed": sd, "idx": i} for i in range(1500 if thorough else 150)], cpu_budget=60)
         # ---------------- (E) tau-leap at extreme propensities ----------------
         casesE = [{"name": "control lambda=1e17", "kf": 1.0, "amount": 3.2e9, "lambda": 1e17},
                   {"name": "lambda=2.5e21 (>= 2^63)", "kf": 1.0, "amount": 5e11, "lambda": 2.5e21},
